@@ -23,8 +23,9 @@
   separate critical sections, so a reader that combines a prefix answer with a router-key answer
   can see the new prefixes with the old keys: `cross_table_gap` exhibits the state in the model,
   harness/locks_harness.c demonstrates it on the real code (known finding "C06/cross-table").
-  Not modelled: the purge path after a failed undo (`pfx_table_src_remove` on the live table,
-  C03's concern), two concurrently synchronising sockets (not quantified by the property).
+  Not modelled: the purge path after a failed undo (`rtr_purge_records_after_failed_undo` removes
+  this cache's records from the live tables, C03's concern), two concurrently synchronising
+  sockets (not quantified by the property).
 -/
 import RtrProofs.Locks
 import RtrProofs.LocksChecker
@@ -77,7 +78,9 @@ def ReloadSystem (paths : Nat → List Ev) : Prop :=
 /-- the table calls of `rtr_sync_receive_and_store_pdus`, in source order, are the modelled ones:
     in reset mode `update` = `shadow`; the only calls that touch a live table are the two copies
     (read side), the two swaps, the two notify_diffs (read side) — and the purge path
-    (`pfx_table_src_remove` on the live table after a failed undo), which is outside this model. -/
+    (`rtr_purge_records_after_failed_undo`: src_remove on both live tables when an undo step of a
+    rejected update fails; no swap follows), which is outside this model: it is the failure
+    handling judged by C03, and it leaves a third state (this cache's records removed). -/
 theorem reload_sequence : reloadCalls = [
     ("pfx_table_init", ["shadow"]),
     ("pfx_table_copy_except_socket", ["live", "update"]),
@@ -85,16 +88,16 @@ theorem reload_sequence : reloadCalls = [
     ("spki_table_copy_except_socket", ["live", "update"]),
     ("rtr_update_pfx_table", ["update"]),
     ("rtr_undo_update_pfx_table", ["update"]),
-    ("pfx_table_src_remove", ["live"]),
+    ("rtr_purge_records_after_failed_undo", []),
     ("rtr_update_pfx_table", ["update"]),
     ("rtr_undo_update_pfx_table", ["update"]),
     ("rtr_undo_update_pfx_table", ["update"]),
-    ("pfx_table_src_remove", ["live"]),
+    ("rtr_purge_records_after_failed_undo", []),
     ("rtr_update_spki_table", ["update"]),
     ("rtr_undo_update_pfx_table", ["update"]),
     ("rtr_undo_update_pfx_table", ["update"]),
     ("rtr_undo_update_spki_table", ["update"]),
-    ("spki_table_src_remove", ["update"]),
+    ("rtr_purge_records_after_failed_undo", []),
     ("pfx_table_swap", ["live", "shadow"]),
     ("spki_table_swap", ["live", "shadow"]),
     ("pfx_table_notify_diff", ["live", "shadow"]),
